@@ -42,11 +42,41 @@ def scratch_dir(tag):
     """Private scratch directory (tmpfs when available), removed at exit."""
     base = "/dev/shm" if os.path.isdir("/dev/shm") and os.access("/dev/shm", os.W_OK) else (
         os.environ.get("TMPDIR") or "/tmp")
+    _sweep_stale(base)
     path = os.path.join(base, "vf-%d-%s" % (os.getpid(), tag))
     shutil.rmtree(path, ignore_errors=True)
     os.makedirs(path)
     _SCRATCH.append((os.getpid(), path))
     return path
+
+
+_SWEPT = False
+
+
+def _sweep_stale(base):
+    """Remove scratch directories left behind by checker processes that no longer exist."""
+    global _SWEPT
+    if _SWEPT:
+        return
+    _SWEPT = True
+    try:
+        names = os.listdir(base)
+    except OSError:
+        return
+    for n in names:
+        if not n.startswith("vf-"):
+            continue
+        parts = n.split("-")
+        try:
+            pid = int(parts[1])
+        except (IndexError, ValueError):
+            continue
+        try:
+            os.kill(pid, 0)
+        except ProcessLookupError:
+            shutil.rmtree(os.path.join(base, n), ignore_errors=True)
+        except OSError:
+            pass
 
 
 @atexit.register
